@@ -15,8 +15,7 @@ CORR_NAME = "tt-verdict-and-seq-verdict"
 RULE = ("one case = a generated problem with instantaneous actions only (upp.ProblemGen = C01's grammar: Boolean/int/real/object "
         "fluents with parameters, types T>S,U, quantified/disjunctive conditions, conditional/forall assign/increase/decrease "
         "effects, Boolean delete+add pairs, same-value double assignments, aliasing through equal parameters, bounded types, "
-        "state invariants, ~8% undefined fluents; in 30% of the problems some effect targets read an object fluent in their "
-        "arguments) and a plan of 0-4 (quick) / 0-6 (thorough) action instances found by walking with the REAL simulator (80% "
+        "state invariants, ~8% undefined fluents) and a plan of 0-4 (quick) / 0-6 (thorough) action instances found by walking with the REAL simulator (80% "
         "applicable steps, else arbitrary ones; 60% of the cases keep only the goals the walk reaches), scheduled at distinct "
         "rational start times (k/4, k/3, 1/7, 22/7, 10^6; 30% start at 0) and listed in shuffled order. The REAL "
         "TimeTriggeredPlanValidator on the plan as listed and the REAL SequentialPlanValidator on the instances in start-time "
